@@ -80,6 +80,8 @@ def root_of(loc):
 def as_int(v):
     if isinstance(v, VOpt):
         v = v.val
+    if isinstance(v, VOpaque) and v.desc == "foreign":
+        return z3.Int(fresh_name("foreign_int"))
     if isinstance(v, VInt):
         return v.t
     if isinstance(v, VBool):
@@ -127,8 +129,11 @@ class Engine:
     def contract_for(self, cls, name):
         """contract applying to method `name` on receiver class `cls` (walk the MRO)"""
         for k in self.repo.mro(cls) if cls in self.repo.classes else [cls]:
-            c = CONTRACTS.get(f"{k}.{name}")
+            c = CONTRACTS.get(f"{k}.{name}@{cls}")
             if c is not None:
+                return c
+            c = CONTRACTS.get(f"{k}.{name}")
+            if c is not None and (not c.contexts or cls in c.contexts):
                 return c
         return None
 
@@ -879,6 +884,8 @@ class Exec:
         return self.index(st, base, idx, node)
 
     def index(self, st, base, idx, node=None):
+        if isinstance(base, VOpaque) and base.desc == "foreign":
+            return VOpaque("foreign")
         if isinstance(base, VSeq):
             i = as_int(idx)
             if self.spec:
@@ -953,7 +960,8 @@ class Exec:
             raise Unsupported("nested comprehension")
         gen = node.generators[0]
         it = self.eval(gen.iter, st)
-        j = z3.Int(fresh_name("j"))
+        # canonical bound-variable name per nesting depth: equal comprehensions give equal lambda terms
+        j = z3.Int(f"cj%{len(self.binder_marks)}")
         mark = len(st.pc)
         saved_env = st.env
         st.env = dict(st.env)
